@@ -4,9 +4,10 @@ import GotranxModel.Expr
 
 A model of what lark's LALR(1) parser with its contextual lexer does with `ode.lark`:
 
-* whitespace (`WS`, which includes newlines) is ignored, **except** that a run of
-  whitespace that *starts* with a line break right after a token that can end an operand
-  is the `NEWLINE` token (it ends an assignment);
+* blanks and tabs are ignored (`WS_INLINE`); a line break right after a token that can end an
+  operand is the `NEWLINE` token `(\r?\n)+` (it ends an assignment, and a second one — e.g. after a
+  line that holds only blanks — ends an `expressions("A")` block); any other white space,
+  including line breaks, is ignored (`WS`);
 * `#` skips whitespace (including line breaks!) and takes the rest of that line as text;
 * keywords are recognised by exact match and only where the grammar can use them;
 * `expression > term > factor > power > atom` is the precedence ladder
@@ -46,6 +47,7 @@ deriving Repr, Inhabited
 
 def isIdStart (c : Char) : Bool := c.isAlpha || c == '_'
 def isIdChar (c : Char) : Bool := c.isAlphanum || c == '_'
+def isInline (c : Char) : Bool := c == ' ' || c == '\t'
 def isWs (c : Char) : Bool := c == ' ' || c == '\t' || c == '\x0c' || c == '\r' || c == '\n'
 
 def takeWhileC (p : Char → Bool) : List Char → List Char × List Char
@@ -117,7 +119,10 @@ def lexAux : Nat → Bool → List Char → List Tok → Except LexErr (List Tok
   | 0, _, _, acc => .ok acc.reverse
   | _ + 1, _, [], acc => .ok acc.reverse
   | fuel + 1, prevEnds, c :: cs, acc =>
-    if isWs c then
+    if isInline c then
+      -- WS_INLINE: blanks and tabs only; a following line break is looked at separately
+      lexAux fuel prevEnds (takeWhileC isInline cs).2 acc
+    else if isWs c then
       if prevEnds && startsNewline (c :: cs) then
         lexAux fuel true (takeNewlines (c :: cs)) (.nl :: acc)
       else
